@@ -24,7 +24,8 @@ P1305 = (1 << 130) - 5
 
 def configs(tier):
     if tier == "quick":
-        return [("native", "", "plain"), ("native", "avx512f,avx2", "plain"), ("native", vcore.ALL_OFF, "plain"), ("noti", "", "plain")]
+        return [("native", "", "plain"), ("native", "avx512f,avx2", "plain"), ("native", vcore.ALL_OFF, "plain"), ("noti", "", "plain"),
+                ("native", "", "plain", {"HX_ALIGN": "5"})]     # every buffer 5 bytes past a malloc boundary
     out = []
     for v in vcore.VARIANTS:
         for m in vcore.MASK_CHAIN:
